@@ -146,8 +146,13 @@ func Load(opt Options) (*Program, error) {
 		paths.InModule = func(g *ssa.Function) bool { return p.inMod[g] }
 		// helper functions that did not exist on the confirmed tree are spliced into their callers' paths
 		paths.Inlineable = func(g *ssa.Function) bool {
-			if g == nil || !p.inMod[g] || g.Parent() != nil || len(g.Blocks) == 0 {
+			if g == nil || !p.inMod[g] || len(g.Blocks) == 0 {
 				return false
+			}
+			if g.Parent() != nil {
+				// a function literal that captures nothing, called by name in its own function (a local helper
+				// written as "f := func(x T) U {...}"): spliced like a helper function
+				return len(g.FreeVars) == 0 && g.Recover == nil && g.Synthetic == ""
 			}
 			if g.Origin() != nil && strings.HasPrefix(g.Synthetic, "instance of") {
 				// a ground instance of a generic helper has its own body; what it is is decided on the generic function
